@@ -355,6 +355,29 @@ def rule_file1_truth(prog, rep, tier, entry="conformance.ground_truth", truth_pa
         raise AnalysisError("FILE-1: no sink-reaching call found in %s" % entry)
 
 
+def _resolve_locals(e, path, upto=None):
+    """replace a local Name by the (non-constant) value last assigned to it on the path (before index `upto`)"""
+    if not isinstance(e, ast.Name):
+        return e
+    val = None
+    for i, (node, _) in enumerate(path):
+        if upto is not None and i >= upto:
+            break
+        st = node.stmt
+        if isinstance(st, ast.Assign) and any(isinstance(t, ast.Name) and t.id == e.id for t in st.targets):
+            val = st.value
+    return val if val is not None else e
+
+
+def _path_facts_resolved(path):
+    out = []
+    for i, (node, label) in enumerate(path):
+        if label is not None and label[0] not in ("iter", "except"):
+            for a, p in facts(label[0], label[1]):
+                out.append((_resolve_locals(a, path, i + 1), p))
+    return out
+
+
 # ---------------------------------------------------------------------------- FILE-2 flag <=> write
 def _contains_sink_call(prog, stmt, rs, header_only=True):
     """Does the statement (its own expressions, not nested blocks) contain a call reaching a write sink?"""
@@ -425,15 +448,10 @@ def rule_file2(prog, rep, tier, anchor="conformance._conform_filename"):
             continue
         # expression flag: must be tied to a branch on a structurally equal test
         fd = dump(flag_expr)
-        tied = [(i, l[1]) for i, (n, l) in enumerate(path) if l is not None and l[0] not in ("iter", "except")
-                and any(dump(a) == fd and True for a, _p in facts(l[0], l[1]))]
         pol = None
-        for i, (n, l) in enumerate(path):
-            if l is None or l[0] in ("iter", "except"):
-                continue
-            for a, p in facts(l[0], l[1]):
-                if dump(a) == fd:
-                    pol = p
+        for a, p in _path_facts_resolved(path):
+            if dump(a) == fd:
+                pol = p
         if pol is None:
             if W:
                 rep.violation(Finding("FILE-2", anchor, "flag-expr-untied",
@@ -461,6 +479,10 @@ def rule_file2(prog, rep, tier, anchor="conformance._conform_filename"):
             pos = node.body.value == "modified"
             if isinstance(t, ast.UnaryOp) and isinstance(t.op, ast.Not):
                 t, pos = t.operand, not pos
+            if isinstance(t, ast.Name):
+                defs = [s2.value for s2 in ast.walk(fi.node) if isinstance(s2, ast.Assign) and any(isinstance(x, ast.Name) and x.id == t.id for x in s2.targets) and not isinstance(s2.value, ast.Constant)]
+                if len(defs) == 1:
+                    t = defs[0]
             if flags and (dump(t) not in flags or not pos):
                 rep.violation(Finding("FILE-2", anchor, "printed-word", "the printed modified/unchanged word is not decided by the returned flag expression", loc(prog, node)))
             else:
@@ -855,7 +877,7 @@ def rule_file2c(prog, rep, tier, anchor="conformance._conform_filename"):
         if writes:
             continue
         n += 1
-        fs = path_facts(path)
+        fs = _path_facts_resolved(path)
         reason = None
         for a, p in fs:
             if isinstance(a, ast.Call):
